@@ -1229,8 +1229,24 @@ impl MutableArchive {
         }
 
         // Write block table
+        let old_block_table_pos = archive_offset + header.block_table_pos as u64;
+        let old_block_table_size = header.block_table_size as usize;
+        let new_block_table_size = self.block_table.as_ref().map_or(0, |t| t.entries().len());
+
+        // A grown block table no longer fits at its old position: file data added
+        // in this session starts right behind it. Relocate it to the end of the
+        // archive instead (update_header() records the new position).
+        let block_table_pos = if new_block_table_size > old_block_table_size {
+            let pos = self.get_archive_end_offset()?;
+            let end = pos + (new_block_table_size * 16) as u64;
+            self.next_file_offset = Some((end + 511) & !511);
+            self.updated_block_table_pos = Some(pos - archive_offset);
+            pos
+        } else {
+            old_block_table_pos
+        };
+
         if let Some(block_table) = &self.block_table {
-            let block_table_pos = archive_offset + header.block_table_pos as u64;
             self.file.seek(SeekFrom::Start(block_table_pos))?;
 
             // Convert to bytes and encrypt
@@ -1602,6 +1618,17 @@ impl MutableArchive {
                 header.block_table_size = new_size;
                 needs_update = true;
             }
+        }
+
+        // Relocated tables extend the archive; readers reject table offsets that
+        // lie beyond the archive size recorded in the header
+        if let Some(block_pos) = self.updated_block_table_pos {
+            let end = block_pos + header.block_table_size as u64 * 16;
+            header.archive_size = header.archive_size.max(end as u32);
+            if let Some(s64) = header.archive_size_64 {
+                header.archive_size_64 = Some(s64.max(end));
+            }
+            needs_update = true;
         }
 
         if needs_update {
